@@ -522,7 +522,7 @@ func (g *G) prologue(sc *scope) []string {
 		case 6:
 			ln := []int{8, 12, 16}[g.pick("probuf", 3)]
 			out = append(out, fmt.Sprintf("%s := make([]byte, %d)", name, ln))
-			g.declare(sc, &Var{Name: name, T: SliceOf(TU8), MinLen: ln})
+			g.declare(sc, &Var{Name: name, T: SliceOf(TU8), MinLen: ln, CapKnown: true})
 		case 7:
 			if g.chance("protable", 35) {
 				// a 256-element table: the only slices a byte-typed index can address directly
@@ -1239,11 +1239,27 @@ func (g *G) structLit(sc *scope, t *Ty, depth int) string {
 			if d < 0 {
 				d = 0
 			}
+			if f.T.K == KU64 && g.chance("fieldconstexpr", 20) {
+				// a constant operator expression (only at uint64: at narrower widths it is the known
+				// finding untypedConstExpr); its width is that of the NAMED field, wherever it
+				// stands in the literal (seeded change C01-23)
+				g.label("struct-literal-constant-expression")
+				parts = append(parts, f.Name+": "+[]string{"8 * 512", "(1 << 12) + 3", "(3 + 4) * 1000", "1 << 40", "70000 - 1"}[g.pick("fieldconst", 5)])
+				continue
+			}
 			parts = append(parts, f.Name+": "+g.expr(sc, f.T, d))
 		}
 	}
 	if len(parts) < len(t.S.Fields) {
 		g.label("incomplete-struct-literal")
+	}
+	if len(parts) >= 2 && g.chance("fieldshuffle", 40) {
+		// keyed fields may come in any order
+		g.label("struct-literal-reordered")
+		for i := len(parts) - 1; i > 0; i-- {
+			j := g.pick("fieldperm", i+1)
+			parts[i], parts[j] = parts[j], parts[i]
+		}
 	}
 	g.label("struct-literal")
 	return t.S.Name + "{" + strings.Join(parts, ", ") + "}"
